@@ -282,7 +282,7 @@ class Model(SOCModel):
                 self.dual = formula
                 return formula
 
-            if len(primal.qmat) == 0:
+            if len(primal.qmat) == 0 or dual_socp.linear.shape[0] == pvar_num:
                 pxmat = primal.xmat
                 plmi = primal.lmi
             else:
